@@ -30,7 +30,8 @@ func init() {
 			NotCovered: "that the maps equal a reference model after arbitrary synchronisation sequences; protobuf wire compatibility.",
 			Rules: map[string]string{"C14-R1": "maps and generation only under mapsMu", "C14-R2": "clean-ups re-validated by generation; inserts bump it",
 				"C14-R3": "full sync clears all maps", "C14-R4": "lookup re-check decision trees", "C14-R5": "atomic cache write, version check",
-				"C14-R6": "codec field coverage", "C14-R7": "no loop-carried buffer aliasing in the encoder"},
+				"C14-R6": "codec field coverage", "C14-R7": "no loop-carried buffer aliasing in the encoder",
+				"C14-R8": "synchronisation protocol tables: Refresh (apply exactly what was fetched, advance the sync point, store the file cache on a full sync), fetchProfiles (a full sync asks from the zero time), needsFullSync, loadFileCache"},
 		}})
 }
 
@@ -46,6 +47,8 @@ func runC14(c *an.Ctx) {
 	c.Floor("C14-R4", 4)
 	c.Floor("C14-R5", 2)
 	c.Floor("C14-R6", 40)
+	c.Floor("C14-R8", 4)
+	c14Sync(c)
 
 	cache := map[*ssa.Function]map[ssa.Instruction]an.Held{}
 	isDBField := func(v ssa.Value, names map[string]bool) (string, bool) {
@@ -861,4 +864,403 @@ func c14CodecNames(c *an.Ctx, rule string, fields func(dst, src string) bool, mi
 		"profiledb/internal/filecachepb.Device.DeviceName <- agd.Device.Name":                                       "cache spelling of the device name",
 		"profiledb/internal/filecachepb.Profile.ProfileId <- agd.Profile.ID":                                        "cache spelling of the profile ID",
 	}, min)
+}
+
+// c14Sync holds the decision tables of the synchronisation protocol.
+func c14Sync(c *an.Ctx) {
+	c14SetTables(c)
+	isLog := func(name string) bool {
+		return strings.Contains(name, "slog.Logger).") || strings.HasSuffix(name, "errcoll.Collect") || strings.Contains(name, ".metrics.")
+	}
+	decide(c, "C14-R8", pdb+"Refresh", an.DecideCfg{
+		Dom:    an.Domain{"full": an.Bools, "fetcherr": an.Bools, "storeerr": an.Bools},
+		Inline: func(f *ssa.Function) bool { return strings.HasPrefix(an.FnKey(f), pdb+"Refresh$") },
+		OnCall: func(it *an.Interp, name string, args []an.AV) (an.AV, bool) {
+			switch {
+			case isLog(name):
+				return an.Nil(), true
+			case strings.HasSuffix(name, ").needsFullSync"):
+				return an.AV{Kind: an.KTuple, Tup: []an.AV{an.Sym("since"), it.Feature("full")}}, true
+			case name == "time.Now":
+				return an.Sym("now"), true
+			case name == "time.Since":
+				return an.Sym("dur"), true
+			case strings.HasSuffix(name, "agd.NewRequestID"):
+				return an.Sym("reqid"), true
+			case strings.HasSuffix(name, "agd.WithRequestID"):
+				return an.NonNil("ctx2"), true
+			case strings.HasSuffix(name, ").fetchProfiles"):
+				if args[3].String() != fmt.Sprint(it.Feature("full").IsTrue()) {
+					return an.Sym("fetch with another sync mode"), true
+				}
+				if it.Feature("fetcherr").IsTrue() {
+					return an.AV{Kind: an.KTuple, Tup: []an.AV{an.Nil(), an.NonNil("fetchErr")}}, true
+				}
+				return an.AV{Kind: an.KTuple, Tup: []an.AV{an.NonNil("resp"), an.Nil()}}, true
+			case strings.HasSuffix(name, ").setProfiles"):
+				return an.Nil(), true
+			case name == "p0.cache.Store":
+				if it.Feature("storeerr").IsTrue() {
+					return an.NonNil("storeErr"), true
+				}
+				return an.Nil(), true
+			case strings.HasSuffix(name, "errors.Annotate"):
+				return args[0], true
+			case name == "fmt.Errorf":
+				return an.NonNil("wrapped"), true
+			}
+			return an.AV{}, false
+		},
+		Expect: func(f an.Features, o an.AOutcome) string {
+			if o.Exit != "return" || len(o.Ret) != 1 {
+				return "an error result"
+			}
+			var sets, stores []string
+			lock, fetch := -1, -1
+			for i, e := range o.Effects {
+				if e.Kind != "call" {
+					continue
+				}
+				switch {
+				case e.Name == "(*sync.Mutex).Lock" && e.Args[0] == "p0.refreshMu":
+					lock = i
+				case strings.HasSuffix(e.Name, ").fetchProfiles"):
+					fetch = i
+				case strings.HasSuffix(e.Name, ").setProfiles"):
+					sets = append(sets, strings.Join(e.Args[2:], ","))
+				case e.Name == "p0.cache.Store":
+					stores = append(stores, e.Args[1])
+				}
+			}
+			if lock < 0 || fetch < lock {
+				return "the storage queried under refreshMu"
+			}
+			st := map[string]string{}
+			for _, e := range o.Effects {
+				if e.Kind == "store" {
+					st[e.Name] = e.Args[0]
+				}
+			}
+			if f.B("fetcherr") {
+				if len(sets)+len(stores) == 0 && o.Ret[0].Kind != an.KNil && st["p0.syncTime"] == "" {
+					return ""
+				}
+				return "nothing applied and the sync point kept when the storage request fails"
+			}
+			full := fmt.Sprint(f.B("full"))
+			if len(sets) != 1 || sets[0] != "resp.Profiles,resp.Devices,"+full {
+				return "exactly the fetched profiles and devices applied, as a full sync iff one was requested; got " + strings.Join(sets, " / ")
+			}
+			if st["p0.syncTime"] != "resp.SyncTime" {
+				return "the sync point advanced to the storage's sync time; got " + st["p0.syncTime"]
+			}
+			if !f.B("full") {
+				if len(stores) == 0 && o.Ret[0].Kind == an.KNil && st["p0.lastFullSync"] == "" {
+					return ""
+				}
+				return "no file-cache write and no full-sync bookkeeping after an incremental sync"
+			}
+			if len(stores) != 1 {
+				return "the file cache written once after a full sync"
+			}
+			k := strings.TrimPrefix(stores[0], "&")
+			for fld, want := range map[string]string{"SyncTime": "resp.SyncTime", "Profiles": "resp.Profiles", "Devices": "resp.Devices"} {
+				if got := o.Mem[k+"."+fld].String(); got != want {
+					return "the file cache to hold the fetched " + fld + " (" + want + "); got " + got
+				}
+			}
+			ver, _ := c.ConstInt("profiledb/internal", "FileCacheVersion")
+			if got := o.Mem[k+".Version"].String(); got != fmt.Sprint(ver) {
+				return "the file cache stamped with the current version; got " + got
+			}
+			if st["p0.lastFullSync"] != "now" || f.B("storeerr") != (o.Ret[0].Kind != an.KNil) {
+				return "the full sync recorded and a cache-write error reported"
+			}
+			return ""
+		},
+	})
+	decide(c, "C14-R8", pdb+"fetchProfiles", an.DecideCfg{
+		Dom: an.Domain{"p3": an.Bools, "err": an.Bools},
+		OnCall: func(it *an.Interp, name string, args []an.AV) (an.AV, bool) {
+			switch {
+			case isLog(name):
+				return an.Nil(), true
+			case name == "p0.storage.Profiles":
+				if it.Feature("err").IsTrue() {
+					return an.AV{Kind: an.KTuple, Tup: []an.AV{an.Nil(), an.NonNil("storErr")}}, true
+				}
+				return an.AV{Kind: an.KTuple, Tup: []an.AV{an.NonNil("sr"), an.Nil()}}, true
+			case name == "time.Now":
+				return an.Sym("now"), true
+			case strings.HasSuffix(name, "errors.Is"):
+				return an.CBool(false), true
+			case name == "fmt.Errorf":
+				return an.NonNil("wrapped"), true
+			}
+			return an.AV{}, false
+		},
+		Expect: func(f an.Features, o an.AOutcome) string {
+			var reqs []string
+			for _, e := range o.Effects {
+				if e.Kind == "call" && e.Name == "p0.storage.Profiles" {
+					reqs = append(reqs, e.Args[1])
+				}
+			}
+			if len(reqs) != 1 {
+				return "one storage request"
+			}
+			k := strings.TrimPrefix(reqs[0], "&")
+			got := o.Mem[k+".SyncTime"].String()
+			if f.B("p3") {
+				if got == "p0.syncTime" {
+					return "a full sync to ask for everything (zero sync time), not for changes since the last sync"
+				}
+			} else if got != "p0.syncTime" {
+				return "an incremental sync to ask for changes since the stored sync point; got " + got
+			}
+			st := map[string]string{}
+			for _, e := range o.Effects {
+				if e.Kind == "store" {
+					st[e.Name] = e.Args[0]
+				}
+			}
+			if !f.B("err") {
+				if o.RetString() == "nonnil:sr, nil" && st["p0.lastFullSyncError"] == "" {
+					return ""
+				}
+				return "the storage's response returned unchanged"
+			}
+			if len(o.Ret) != 2 || o.Ret[1].Kind == an.KNil || o.Ret[0].Kind != an.KNil {
+				return "an error and no response when the storage fails"
+			}
+			if f.B("p3") != (st["p0.lastFullSyncError"] == "now") {
+				return "a failed full sync (and only that) remembered for the retry interval"
+			}
+			return ""
+		},
+	})
+	decide(c, "C14-R8", pdb+"needsFullSync", an.DecideCfg{
+		Dom: an.Domain{"errzero": an.Bools, "(sincefull < p0.fullSyncIvl)": an.Bools, "(sinceerr < p0.fullSyncRetryIvl)": an.Bools},
+		OnCall: func(it *an.Interp, name string, args []an.AV) (an.AV, bool) {
+			switch {
+			case isLog(name):
+				return an.Nil(), true
+			case name == "time.Since":
+				if args[0].String() == "p0.lastFullSync" {
+					return an.Sym("sincefull"), true
+				}
+				if args[0].String() == "p0.lastFullSyncError" {
+					return an.Sym("sinceerr"), true
+				}
+				return an.Sym("since(" + args[0].String() + ")"), true
+			case name == "(time.Time).IsZero":
+				if args[0].String() == "p0.lastFullSyncError" {
+					return it.Feature("errzero"), true
+				}
+				return an.Sym("iszero(" + args[0].String() + ")"), true
+			}
+			return an.AV{}, false
+		},
+		Expect: func(f an.Features, o an.AOutcome) string {
+			want := fmt.Sprintf("sinceerr, %v", !f.B("(sinceerr < p0.fullSyncRetryIvl)"))
+			if f.B("errzero") {
+				want = fmt.Sprintf("sincefull, %v", !f.B("(sincefull < p0.fullSyncIvl)"))
+			}
+			if o.RetString() != want {
+				return want + " (full sync when the full-sync interval has passed since the last success, or the retry interval since the last failure); got " + o.RetString()
+			}
+			return ""
+		},
+	})
+	decide(c, "C14-R8", pdb+"loadFileCache", an.DecideCfg{
+		Dom: an.Domain{"load": an.Strs("ok", "none", "version", "error"), "len(fc.Profiles)": an.Ints(0, 2), "len(fc.Devices)": an.Ints(0, 2)},
+		OnCall: func(it *an.Interp, name string, args []an.AV) (an.AV, bool) {
+			switch {
+			case isLog(name), strings.HasSuffix(name, "slog.Logger).With"):
+				return an.NonNil("logger"), true
+			case name == "time.Now", name == "time.Since":
+				return an.Sym("t"), true
+			case name == "p0.cache.Load":
+				switch avStr(it.Feature("load")) {
+				case "ok":
+					return an.AV{Kind: an.KTuple, Tup: []an.AV{an.NonNil("fc"), an.Nil()}}, true
+				case "none":
+					return an.AV{Kind: an.KTuple, Tup: []an.AV{an.Nil(), an.Nil()}}, true
+				case "version":
+					return an.AV{Kind: an.KTuple, Tup: []an.AV{an.Nil(), an.NonNil("err:version")}}, true
+				}
+				return an.AV{Kind: an.KTuple, Tup: []an.AV{an.Nil(), an.NonNil("err:other")}}, true
+			case strings.HasSuffix(name, "errors.Is"):
+				return an.CBool(args[0].Kind == an.KNonNil && args[0].Key == "err:version"), true
+			case strings.HasSuffix(name, ").setProfiles"):
+				return an.Nil(), true
+			}
+			return an.AV{}, false
+		},
+		Expect: func(f an.Features, o an.AOutcome) string {
+			var sets []string
+			for _, e := range o.Effects {
+				if e.Kind == "call" && strings.HasSuffix(e.Name, ").setProfiles") {
+					sets = append(sets, strings.Join(e.Args[2:], ","))
+				}
+			}
+			st := map[string]string{}
+			for _, e := range o.Effects {
+				if e.Kind == "store" {
+					st[e.Name] = e.Args[0]
+				}
+			}
+			load := f.S("load")
+			if load == "error" {
+				if len(sets) == 0 && len(o.Ret) == 1 && o.Ret[0].Kind != an.KNil {
+					return ""
+				}
+				return "the load error returned"
+			}
+			if load != "ok" || f.I("len(fc.Profiles)") == 0 || f.I("len(fc.Devices)") == 0 {
+				if len(sets) == 0 && o.RetString() == "nil" && st["p0.syncTime"] == "" {
+					return ""
+				}
+				return "nothing applied (and the sync point untouched, so that the first refresh is a full one) without a usable cache"
+			}
+			if len(sets) != 1 || sets[0] != "fc.Profiles,fc.Devices,true" {
+				return "the cached profiles and devices applied as a full synchronisation; got " + strings.Join(sets, " / ")
+			}
+			if st["p0.syncTime"] != "fc.SyncTime" || st["p0.lastFullSync"] != "fc.SyncTime" {
+				return "the sync point and the last full sync restored from the cache"
+			}
+			return ""
+		},
+	})
+}
+
+// c14SetTables holds the tables of setProfiles and setDevices: which index
+// entries a synchronisation writes.
+func c14SetTables(c *an.Ctx) {
+	stores := func(o an.AOutcome) map[string]string {
+		m := map[string]string{}
+		for _, e := range o.Effects {
+			if e.Kind == "store" {
+				m[e.Name] = e.Args[0]
+			}
+		}
+		return m
+	}
+	decide(c, "C14-R8", pdb+"setProfiles", an.DecideCfg{
+		Dom: an.Domain{"p4": an.Bools, "len(p2)": an.Ints(0, 1, 2), "len(p2[0].DeviceIDs)": an.Ints(0, 2), "len(p2[1].DeviceIDs)": an.Ints(0, 1),
+			"p2[0].Deleted": an.Bools, "p2[1].Deleted": an.Bools},
+		OnCall: func(it *an.Interp, name string, args []an.AV) (an.AV, bool) {
+			switch {
+			case strings.HasSuffix(name, ").setDevices"), strings.Contains(name, ".metrics."):
+				return an.Nil(), true
+			}
+			return an.AV{}, false
+		},
+		Expect: func(f an.Features, o an.AOutcome) string {
+			st := stores(o)
+			want := map[string]string{}
+			n := int(f.I("len(p2)"))
+			for i := 0; i < n; i++ {
+				pr := fmt.Sprintf("p2[%d]", i)
+				want["p0.profiles["+pr+".ID]"] = pr
+				for j := 0; j < int(f.I("len("+pr+".DeviceIDs)")); j++ {
+					want[fmt.Sprintf("p0.deviceIDToProfileID[%s.DeviceIDs[%d]]", pr, j)] = pr + ".ID"
+				}
+			}
+			for k, v := range want {
+				if st[k] != v {
+					return fmt.Sprintf("%s = %s (every received profile stored under its ID and each of its devices mapped to it); got %q", k, v, st[k])
+				}
+			}
+			for k, v := range st {
+				if (strings.HasPrefix(k, "p0.profiles[") || strings.HasPrefix(k, "p0.deviceIDToProfileID[")) && want[k] != v {
+					return "no other profile or device-to-profile entries written; got " + k + "=" + v
+				}
+			}
+			if st["p0.mapsGen"] != "(p0.mapsGen + 1)" {
+				return "the generation counter incremented; got " + st["p0.mapsGen"]
+			}
+			clears, setDev, lastStore := 0, -1, -1
+			for i, e := range o.Effects {
+				if e.Kind == "call" && e.Name == "builtin.clear" {
+					clears++
+				}
+				if e.Kind == "call" && strings.HasSuffix(e.Name, ").setDevices") {
+					if setDev >= 0 || strings.Join(e.Args, ",") != "p0,p1,p3" {
+						return "setDevices called once with the received devices"
+					}
+					setDev = i
+				}
+				if e.Kind == "store" && strings.HasPrefix(e.Name, "p0.deviceIDToProfileID[") {
+					lastStore = i
+				}
+			}
+			if f.B("p4") != (clears == 6) || (!f.B("p4") && clears != 0) {
+				return fmt.Sprintf("all six maps cleared exactly on a full synchronisation; %d clears", clears)
+			}
+			if setDev < 0 || setDev < lastStore {
+				return "the devices applied after the profiles (the human-ID index needs the device-to-profile entries)"
+			}
+			return ""
+		},
+	})
+	decide(c, "C14-R8", pdb+"setDevices", an.DecideCfg{
+		Dom: an.Domain{"len(p2)": an.Ints(0, 1, 2), "len(p2[0].DedicatedIPs)": an.Ints(0, 2), "len(p2[1].DedicatedIPs)": an.Ints(0, 1),
+			"(p2[0].LinkedIP == zero:net/netip.Addr)": an.Bools, "(p2[1].LinkedIP == zero:net/netip.Addr)": an.Bools, `(p2[0].HumanIDLower == "")`: an.Bools, `(p2[1].HumanIDLower == "")`: an.Bools,
+			"p0.deviceIDToProfileID[p2[0].ID]#ok": an.Bools, "p0.deviceIDToProfileID[p2[1].ID]#ok": an.Bools},
+		OnCall: func(it *an.Interp, name string, args []an.AV) (an.AV, bool) {
+			if strings.Contains(name, "slog.Logger).") {
+				return an.Nil(), true
+			}
+			return an.AV{}, false
+		},
+		Expect: func(f an.Features, o an.AOutcome) string {
+			st := stores(o)
+			n := int(f.I("len(p2)"))
+			want := map[string]string{}
+			for i := 0; i < n; i++ {
+				d := fmt.Sprintf("p2[%d]", i)
+				want["p0.devices["+d+".ID]"] = d
+				for j := 0; j < int(f.I("len("+d+".DedicatedIPs)")); j++ {
+					want[fmt.Sprintf("p0.dedicatedIPToDeviceID[%s.DedicatedIPs[%d]]", d, j)] = d + ".ID"
+				}
+				if !f.B("(" + d + ".LinkedIP == zero:net/netip.Addr)") {
+					want["p0.linkedIPToDeviceID["+d+".LinkedIP]"] = d + ".ID"
+				}
+			}
+			for k, v := range want {
+				if st[k] != v {
+					return fmt.Sprintf("%s = %s; got %q", k, v, st[k])
+				}
+			}
+			nHuman := 0
+			for k, v := range st {
+				switch {
+				case strings.HasPrefix(k, "p0.humanIDToDeviceID["):
+					nHuman++
+					_ = v
+				case strings.HasPrefix(k, "p0."):
+					if want[k] != v {
+						return "no other index entries written; got " + k + "=" + v
+					}
+				}
+			}
+			wantHuman := 0
+			for i := 0; i < n; i++ {
+				d := fmt.Sprintf("p2[%d]", i)
+				if !f.B(`(`+d+`.HumanIDLower == "")`) && f.B("p0.deviceIDToProfileID["+d+".ID]#ok") {
+					wantHuman++
+				}
+			}
+			for _, e := range o.Effects {
+				if e.Kind == "call" && (e.Name == "builtin.delete" || e.Name == "builtin.clear") {
+					return "a synchronisation only adds or overwrites index entries (stale ones are removed by the re-validated clean-ups); got " + e.String()
+				}
+			}
+			if nHuman != wantHuman {
+				return fmt.Sprintf("a human-ID entry exactly for devices that have a human ID and a known profile (%d); got %d", wantHuman, nHuman)
+			}
+			return ""
+		},
+	})
 }
